@@ -78,6 +78,15 @@ fn main() {
         }
         k.compile("b3c_win_kernels");
     }
+    // blake3_avx2.c once more as a distributor may build it: with BLAKE3_NO_SSE41 (its leftover inputs then go to the
+    // portable kernel instead of the SSE4.1 one); the only kernel source whose code depends on a BLAKE3_NO_* switch
+    {
+        let mut k = base("cn", &cdir);
+        k.flag("-std=c11").flag("-mavx2");
+        k.define("BLAKE3_NO_SSE41", None);
+        k.file(cdir.join("blake3_avx2.c")).file(cdir.join("blake3_portable.c"));
+        k.compile("b3c_cn_kernels");
+    }
     for prefix in ["ca", "ci"] {
         let mut core = base(prefix, &cdir);
         core.flag("-std=c11");
